@@ -43,6 +43,12 @@ CLAIMED.update({
  "C20": dict(ref="DESIGN 4 C20", tech="exhaustive enumeration of the ramp family (every (len, L) pair = every path of the doubling search and bisection), all short words, with a termination watchdog",
    text="half_life on all ramps up to length 48-64 x every min_periods, profile families, every word up to length 6-7; winsorize on every word x 3 methods x parameter grids against own clip bounds; Spearman on all pair words against Pearson of model ranks and under monotone transforms."),
 })
+CLAIMED.update({
+ "C07": dict(ref="DESIGN 4 C07", tech="exhaustive enumeration of the finite matrix (input back-end configuration x output container x out-path x function x word), differential oracle = the same call on Vec -> Vec",
+   text="Every word over {null,0,1,3} up to length 4-5 realised as ~45 input back-end configurations (ring offsets, strides, chunkings, Arc, option views) x 7 output cells x ~75 functions (rolling, mapping, aggregation, order statistics) compared exactly with the plain Vec result; all accessors of every container (get, uget, iteration both ways and alternating, every sub-slice, contiguous view) describe the logical word."),
+ "C08": dict(ref="DESIGN 4 C08", tech="exhaustive history-tree exploration of two relations: re-encoding (NaN vs None, float vs optional output) and the null-insertion lattice (every placement of 1..3 nulls)",
+   text="Every word up to length 5-6: all null-aware rolling, mapping and aggregation entry points give identical results under both null encodings and all output encodings; every null-free base word with every multiset placement of up to 2-3 nulls leaves counts, moments, extrema, quantiles, percentile ranks, covariance and correlation unchanged."),
+})
 for _k in CLAIMED: CLAIMED[_k].setdefault("note", COMMON_NOTE)
 
 REASONS_PENDING = "check not built yet in this commit (planned, see DESIGN.md section 4); machinery for it (back-end matrix visitors, encodings) exists in mc-adapt"
